@@ -982,6 +982,19 @@ def bytes_add(run, self, other):
     return VBytes(bytes, z3.Concat(self.t, other.t))
 
 
+@method(bytes, "__getitem__")
+def bytes_getitem(run, self, idx):
+    if isinstance(idx, VInt):
+        n = z3.Length(self.t)
+        i = z3.If(idx.t < 0, idx.t + n, idx.t)
+        if run.branch(z3.Or(i < 0, i >= n)):
+            run.throw(IndexError, "index out of range")
+        return VInt(int, z3.BV2Int(self.t[i]))
+    if hasattr(idx, "cls") and not issubclass(idx.cls, (int, slice)) and run.find_attr(idx.cls, "__index__") is None:
+        run.throw(TypeError, "byte indices must be integers or slices")
+    raise Unsupported("bytes slicing")
+
+
 @method(bytes, "__hash__")
 def bytes_hash(run, self):
     return VInt(int, run.fresh_int("hv_hash"))
@@ -1906,6 +1919,20 @@ def _dt_eq(kind):
     return m
 
 
+def _dt_foreign(name):
+    """datetime / timedelta arithmetic and ordering with an operand that is neither (an error value, a CEL scalar): NotImplemented"""
+    def m(run, self, other=None):
+        if other is not None and hasattr(other, "cls") and isinstance(other.cls, type) and not issubclass(other.cls, (_dt.datetime, _dt.timedelta, int, float)):
+            return NOTIMPL
+        raise Unsupported(f"builtin {name} on opaque datetime/timedelta values")
+    return m
+
+
+for _K in (_dt.datetime, _dt.timedelta):
+    for _n in ("__add__", "__radd__", "__sub__", "__rsub__", "__mul__", "__rmul__", "__truediv__", "__rtruediv__", "__floordiv__", "__mod__", "__divmod__",
+               "__lt__", "__le__", "__gt__", "__ge__"):
+        if hasattr(_K, _n):
+            METHODS[(_K, _n)] = _dt_foreign(f"{_K.__name__}.{_n}")
 for _K in (_dt.datetime, _dt.timedelta):
     METHODS[(_K, "__eq__")] = _dt_eq("eq")
     METHODS[(_K, "__ne__")] = _dt_eq("ne")
